@@ -67,7 +67,15 @@ type c02TC struct {
 	Reqs    []int    `json:"reqs"` // request ids, in order
 	HasDef  bool     `json:"hasDef"`
 	Def     c02Def   `json:"def"`
+	// response definitions carried by messages after the first: the generator and every peer
+	// must ignore them (only the first message's definition counts); the Lean model has no
+	// such field, which is exactly that claim
+	LaterDefs []c02LaterDef `json:"laterDefs,omitempty"`
 	FdFlag  bool     `json:"fdFlag"`
+}
+type c02LaterDef struct {
+	At  int    `json:"at"` // index of the request message (>= 1)
+	Def c02Def `json:"def"`
 }
 type c02Info struct {
 	Hdrs []c02Hdr `json:"hdrs"`
@@ -176,9 +184,19 @@ func c02TestCase(tc c02TC) *conformancev1.TestCase {
 		StreamType:     c02StreamTypes[tc.St],
 		RequestHeaders: c02Headers(tc.ReqHdrs),
 	}
+	later := map[int]c02Def{}
+	for _, ld := range tc.LaterDefs {
+		if ld.At >= 1 {
+			later[ld.At] = ld.Def
+		}
+	}
 	for i, id := range tc.Reqs {
 		var m proto.Message
 		first := i == 0 && tc.HasDef
+		if ld, ok := later[i]; ok {
+			first = true
+			tc.Def = ld
+		}
 		switch tc.St {
 		case "unary":
 			r := &conformancev1.UnaryRequest{RequestData: c02ReqData(id)}
@@ -588,9 +606,9 @@ func c02GenHdrs(r *gen.Rand, prefix string, bin bool) []c02Hdr {
 		if r.Chance(1, 3) {
 			name = strings.ToUpper(name[:1]) + name[1:]
 		}
-		isBin := bin && r.Chance(1, 5)
+		isBin := bin && r.Chance(1, 4)
 		if isBin {
-			name += "-bin"
+			name += gen.Pick(r, []string{"-bin", "-bin", "-Bin", "-BIN"})
 		}
 		if used[strings.ToLower(name)] {
 			continue
@@ -664,6 +682,27 @@ func c02GenTC(r *gen.Rand, st string, nReq, nResp int, withErr bool, bin bool) c
 	tc.Def = d
 	if r.Chance(1, 12) {
 		tc.HasDef = false
+	}
+	// a later message may carry a (different) definition of its own; it must be ignored
+	if nReq >= 2 && r.Chance(1, 3) {
+		ld := c02Def{Hdrs: c02GenHdrs(r, "x-late", false), Trls: []c02Hdr{}, Data: []string{}}
+		switch st {
+		case "unary", "clientStream":
+			if r.Bool() {
+				ld.Kind, ld.Data = "data", []string{"6c61746572"}
+			} else {
+				ld.Kind, ld.Err = "error", c02GenErr(r)
+			}
+		default:
+			ld.Kind = "stream"
+			for i := r.Intn(3); i > 0; i-- {
+				ld.Data = append(ld.Data, "6c617465")
+			}
+			if r.Bool() {
+				ld.Err = c02GenErr(r)
+			}
+		}
+		tc.LaterDefs = []c02LaterDef{{At: r.Range(1, nReq-1), Def: ld}}
 	}
 	return tc
 }
@@ -741,7 +780,7 @@ func runC02(c *gen.Ctx) error {
 			in.Cases = append(in.Cases, c02GenTC(r, "halfDuplex", 3, 0, true, false), c02GenTC(r, "clientStream", 3, 0, true, false), c02GenTC(r, "unary", 1, 1, false, false))
 		} else {
 			for i := 0; i < perRun; i++ {
-				in.Cases = append(in.Cases, c02RandomTC(r, false))
+				in.Cases = append(in.Cases, c02RandomTC(r, true))
 			}
 		}
 		ins = append(ins, in)
